@@ -117,6 +117,24 @@ def run(ctx):
                             acts2 += [a for a in h["acts"] if a["a"] != "start"] + [{"a": "deliver", "d": d, "k": 0} for _ in range(3) for d in ("c2s", "s2c")]
                             jobs.append({"mode": "layer", "p": pp, "acts": acts2})
                             nretry += 1
+                        # ... and at once, while both sides still hold what the abandoned transfer left - against an application that
+                        # does not use ETags (a held response must not be continued with the blocks of an older one)
+                        acts3 = acts + [{"a": "abandon", "d": "c2s", "k": 0}, {"a": "retry", "d": "c2s", "k": 0}]
+                        acts3 += [a for a in h["acts"] if a["a"] != "start"] + [{"a": "deliver", "d": d, "k": 0} for _ in range(3) for d in ("c2s", "s2c")]
+                        jobs.append({"mode": "layer", "p": dict(pp, ne=True), "acts": acts3})
+                        nretry += 1
+    # (b2) directed: a response of exactly one block (the server goes on holding it: nobody asks for a second block), then the
+    #      next request with the same token at once, answered with a longer representation (no ETags): refused or whole
+    nagain = 0
+    for ss in (0, 1, 2, 6):
+        for cs in (0, 2, 6):
+            size = 16 << ss
+            pp = {"l": 0, "l2": size, "cs": cs, "ss": ss, "cmms": 2048, "smms": 2048, "ne": True, "l2b": 3 * size + 1}
+            acts = [{"a": "start", "d": "c2s", "k": 0}, {"a": "deliver", "d": "c2s", "k": 0}, {"a": "deliver", "d": "s2c", "k": 0}, {"a": "again", "d": "c2s", "k": 0}]
+            acts += [{"a": "deliver", "d": d, "k": 0} for _ in range(8) for d in ("c2s", "s2c")]
+            jobs.append({"mode": "layer", "p": pp, "acts": acts})
+            nagain += 1
+    ctx.cov["next_request_with_the_same_token_schedules"] = nagain
     # (c) directed schedules: a fault-free exchange of every scenario in which the server's buffers time out once after
     #     1 / 2 delivered responses (a GET continuation then executes the application again: new representation)
     ndir = 0
